@@ -183,29 +183,37 @@ static int run_exec(abtmc_xrec *xr, int cfg, const abtmc_dev *dev, int ndev,
             char tail[700];
             tail[0] = 0;
             if (errfd >= 0) {
-                off_t sz = lseek(errfd, 0, SEEK_END);
-                off_t from = 0;
-                (void)sz;
-                ssize_t n = pread(errfd, tail, sizeof(tail) - 1, from);
+                static char big[16384];
+                ssize_t n = pread(errfd, big, sizeof(big) - 1, 0);
                 if (n < 0)
                     n = 0;
-                tail[n] = 0;
-                for (ssize_t i = 0; i < n; i++)
-                    if (tail[i] == '"' || tail[i] == '\\' ||
-                        (unsigned char)tail[i] < 32)
-                        tail[i] = ' ';
+                big[n] = 0;
+                /* start at the actual report, not at preceding warnings */
+                const char *from = strstr(big, "ERROR: ");
+                if (!from)
+                    from = strstr(big, "runtime error");
+                if (!from)
+                    from = strstr(big, "Assertion");
+                if (!from)
+                    from = big;
+                else if (from - big > 60 && strstr(big, "runtime error") == from)
+                    from -= 60;
+                snprintf(tail, sizeof(tail), "%s", from);
+                for (char *z = tail; *z; z++)
+                    if (*z == '"' || *z == '\\' || (unsigned char)*z < 32)
+                        *z = ' ';
+                /* classify on the whole output */
+                if (strstr(big, "AddressSanitizer"))
+                    snprintf(xr->key, sizeof(xr->key), "crash_asan");
+                else if (strstr(big, "runtime error"))
+                    snprintf(xr->key, sizeof(xr->key), "crash_ubsan");
+                else if (strstr(big, "Assertion"))
+                    snprintf(xr->key, sizeof(xr->key), "crash_assert");
             }
             /* key: first sanitizer/assert marker if any */
-            const char *k = "crash";
-            if (strstr(tail, "AddressSanitizer"))
-                k = "crash_asan";
-            else if (strstr(tail, "runtime error"))
-                k = "crash_ubsan";
-            else if (strstr(tail, "Assertion"))
-                k = "crash_assert";
-            else if (sig == SIGSEGV)
-                k = "crash_segv";
-            snprintf(xr->key, sizeof(xr->key), "%s", k);
+            if (!xr->key[0])
+                snprintf(xr->key, sizeof(xr->key), "%s",
+                         sig == SIGSEGV ? "crash_segv" : "crash");
             snprintf(xr->msg, sizeof(xr->msg), "child died sig=%d exit=%d: %s",
                      sig, ec, tail);
         }
@@ -525,6 +533,7 @@ static int explore_level(int cfg, int P, int T, int E)
     F[S->top].ndev = 0;
     S->top++;
     pid_t pids[MAXW];
+    fflush(NULL); /* children must not inherit unflushed stdio buffers */
     for (int w = 0; w < opt_workers; w++) {
         pid_t p = fork();
         if (p == 0)
